@@ -46,13 +46,18 @@ ShapeCase(shape, dt) == LET X == Iota(dt, shape, 0) IN CaseRec("shape", "Shape",
 
 \* dtype sweep: element order must be preserved for every element type
 DtShapes == {<<2, 3>>, <<1, 2, 1, 2>>}
-DtypeCases(dt, shape) ==
-   LET X == Iota(dt, shape, 0) IN
+DtypeCasesX(dt, X) ==
    <<CaseRec("dtypes", "Reshape", <<>>, <<X, I64(<<-1, 2>>)>>, SemReshape(X, I64(<<-1, 2>>)), <<dt>>),
      CaseRec("dtypes", "Flatten", <<AI("axis", -1)>>, <<X>>, SemFlatten(X, -1), <<dt>>),
      CaseRec("dtypes", "Squeeze", <<>>, <<X>>, SemSqueeze(X, Nil), <<dt>>),
      CaseRec("dtypes", "Unsqueeze", <<>>, <<X, I64(<<0, -1>>)>>, SemUnsqueeze(X, I64(<<0, -1>>)), <<dt>>),
      CaseRec("dtypes", "Shape", <<>>, <<X>>, SemShape(X), <<dt>>)>>
+DtypeCases(dt, shape) == DtypeCasesX(dt, Iota(dt, shape, 0))
+\* the operators move bit patterns: NaN, infinities, the sign of zero and extreme integers arrive unchanged (compared bit for bit)
+SpecialValueXs ==
+   {T(dt, <<2, 3>>, <<NZ, NaN, PInf, NInf, FMax, Fin(0)>>) : dt \in {"f32", "f64"}} \cup
+   {T(dt, <<2, 3>>, <<IMinS, IMaxS, Fin(-1), Fin(0), Sym(1, 1), Sym(1, -2)>>) : dt \in {"i8", "i64"}} \cup
+   {T(dt, <<2, 3>>, <<IMaxU, Sym(1, 0), Fin(0), Sym(1, -1), Fin(-2), Fin(1)>>) : dt \in {"u8", "u64"}}
 
 AxisVals(r) == (-(r + 1))..r
 AxesLists(r, n) == UNION {[1..k -> AxisVals(r)] : k \in 1..n}
@@ -97,7 +102,7 @@ Emit ==
                                   /\ \A axes \in AxesLists(Len(st.shape), AxesLen) : P(SqueezeCase(st.shape, axes, FALSE))
         [] st.fam = "unsqueeze" -> \A axes \in AxesLists(Len(st.shape) + 1, MinI(AxesLen, 5 - Len(st.shape))) :
                                       (Len(axes) > 1 => Range(axes) \subseteq AxisVals(Len(st.shape) + Len(axes))) => P(UnsqueezeCase(st.shape, axes))
-        [] st.fam = "shape"    -> P(ShapeCase(st.shape, "f32")) /\ (Len(st.shape) <= 2 => ExtremeAxisCases(st.shape)) /\ (st.shape = <<>> => LongCases)
+        [] st.fam = "shape"    -> P(ShapeCase(st.shape, "f32")) /\ (Len(st.shape) <= 2 => ExtremeAxisCases(st.shape)) /\ (st.shape = <<>> => LongCases /\ \A X \in SpecialValueXs : \A i \in 1..5 : P(DtypeCasesX(X.dt \o "_special", X)[i]))
         [] st.fam = "dtypes"   -> \A i \in 1..5 : P(DtypeCases(st.dt, st.shape)[i])
    /\ st' = [st EXCEPT !.done = TRUE]
 Next == Emit
